@@ -434,7 +434,9 @@ pub fn generate_c10(corpus: &[Project], seed: u64, index: u64, k: usize) -> Run 
                 earlier.push(chosen.iter().map(|f| (f.clone(), doc_rewrite(&fs[f], round))).collect());
             }
         }
-        variants.push(Variant { hash_seed, preregister, repeat: i % 3 == 0, diag_first: i % 5 == 4, root: None, earlier, verbose: i % 4 == 1 });
+        // (the entry points are called in the other order by variants 2, 8 and every fifth from 9 on - variant 4
+        // is the twin of variant 0 below; until round 10 that left the quick tier, k = 8, without any)
+        variants.push(Variant { hash_seed, preregister, repeat: i % 3 == 0, diag_first: i % 5 == 4 || i == 2 || i == 8, root: None, earlier, verbose: i % 4 == 1 });
     }
     // one variant builds the same project checked out somewhere else
     if k >= 6 {
